@@ -392,10 +392,74 @@ fn restore_through_a_stale_handle_episode(sess: &mut Session, rng: &mut Rng, rep
     res
 }
 
+/// One handle whose window already covers the stream (it wrote and flushed it, or read it)
+/// patches it in several places in no particular order - later patches at lower offsets
+/// than earlier ones - between two flushes; what the handle shows afterwards and what the
+/// stored bytes hold must both be the patched content.
+fn scattered_patches_episode(sess: &mut Session, rng: &mut Rng, rep: &mut Report) -> Result<(), Fail> {
+    use std::io::{Read, Seek, SeekFrom, Write};
+    let io = |what: &str| {
+        let w = what.to_string();
+        move |e: std::io::Error| ("harness-or-C01: scattered-patches episode".to_string(), format!("{w}: {e}"))
+    };
+    let len = *rng.pick(&[120usize, 1000, 3000, 5000, 9000]);
+    let mut want = crate::engine::payload(78, len);
+    let cf = sess.cf();
+    let mut s = cf.create_stream("/sp").map_err(io("create_stream"))?;
+    s.write_all(&want).map_err(io("write"))?;
+    s.flush().map_err(io("flush"))?;
+    if rng.chance(1, 2) {
+        // warm from reading instead of from the write
+        drop(s);
+        s = cf.open_stream("/sp").map_err(io("open"))?;
+        let mut seen = Vec::new();
+        s.read_to_end(&mut seen).map_err(io("read"))?;
+    }
+    let mut log = Vec::new();
+    for round in 0..2 {
+        let n = rng.range(2, 5);
+        for k in 0..n {
+            let l = 1 + rng.below(30) as usize;
+            let at = rng.below((len - l) as u64 + 1) as usize;
+            let patch = vec![0xC0u8 | (round * 8 + k) as u8; l];
+            s.seek(SeekFrom::Start(at as u64)).map_err(io("seek"))?;
+            s.write_all(&patch).map_err(io("patch"))?;
+            want[at..at + l].copy_from_slice(&patch);
+            log.push(format!("{l}@{at}"));
+        }
+        s.flush().map_err(io("flush after patches"))?;
+        log.push("flush".into());
+    }
+    let mut live = Vec::new();
+    s.seek(SeekFrom::Start(0)).map_err(io("seek 0"))?;
+    s.read_to_end(&mut live).map_err(io("read back"))?;
+    drop(s);
+    let stored = sess.shared.bytes();
+    let mut res = Ok(());
+    if live != want {
+        res = Err(("harness-or-C01: scattered-patches episode | handle reads something else".to_string(), format!("/sp ({len} bytes), patches {:?}: {}", log, engine::describe_bytes_diff(&want, &live))));
+    } else {
+        for mode in [Mode::Strict, Mode::Permissive] {
+            let d = engine::dump_bytes(&stored, mode).map_err(|w| ("crash-point | reopen | open failed".to_string(), format!("scattered-patches episode: {w}")))?;
+            let got = d.iter().find(|(v, _)| v.path == "/sp").map(|(_, b)| b.clone()).unwrap_or_default();
+            if got != want {
+                res = Err(("crash-point | bytes written through a handle are not in the stored file".to_string(), format!("/sp ({len} bytes): one handle patched it ({:?}) and flushed; the live handle shows the patched content, the stored file ({mode:?}) holds {}", log, engine::describe_bytes_diff(&want, &got))));
+                break;
+            }
+        }
+    }
+    sess.cf().remove_stream("/sp").map_err(io("remove_stream"))?;
+    rep.count("scattered_patch_episodes_checked");
+    res
+}
+
 impl Monitor for ReopenMonitor {
     fn quiescent(&mut self, sess: &mut Session, rng: &mut Rng, gen: &Gen, rep: &mut Report, done: &mut Vec<Step>) -> Result<(), Fail> {
         if sess.open_slots().is_empty() && rng.chance(1, 40) {
             restore_through_a_stale_handle_episode(sess, rng, rep)?;
+        }
+        if sess.open_slots().is_empty() && rng.chance(1, 30) {
+            scattered_patches_episode(sess, rng, rep)?;
         }
         // the live object must itself agree with the model, otherwise the comparison
         // below would blame persistence for a C01 matter
